@@ -16,6 +16,8 @@ import OpyVerif.Generated.ConstantsDefs
 import OpyVerif.Generated.SkeletonsDefs
 import OpyVerif.Generated.GuardsDefs
 import OpyVerif.Generated.FormulasDefs
+import OpyVerif.Generated.BudgetDefs
+import OpyVerif.Generated.ClipLoopsDefs
 /-
 Line-protocol driver: runs the *executable model definitions* on inputs sent by the Python
 harness, one request per line, one answer per line.  Imports models only (no Mathlib), so it
@@ -228,6 +230,17 @@ def step (d : DState) (line : String) : DState × String :=
     | _, _ => (d, "bad-op")
   | ["b", name, xs] => match benchByName name, parseFloats xs with
     | some f, some xs => (d, showF (f xs)) | _, _ => (d, "bad-op")
+  -- per-iteration evaluation budget computed from the call sites translated from the current source
+  | ["budget", kind, n] => match Opy.Gen.evalTerms.lookup kind, n.toNat? with
+    | some row, some n => (d, match iterationBudget n row with | some b => toString b | none => "none")
+    | _, _ => (d, "bad-op")
+  -- the check_limits loops translated from the current source, run on keys
+  | ["cl.agent", lbs, ubs, p] => match parseInts lbs, parseInts ubs, parsePos p with
+    | some l, some u, some p => (d, showPos (Opy.Gen.agentClip.runPos l u p)) | _, _, _ => (d, "bad-op")
+  | ["cl.search", lbs, ubs, pop] => match parseInts lbs, parseInts ubs, parsePop pop with
+    | some l, some u, some pop => (d, showPop (Opy.Gen.searchClip.runAll l u pop)) | _, _, _ => (d, "bad-op")
+  | ["cl.hyper", lbs, ubs, pop] => match parseInts lbs, parseInts ubs, parsePop pop with
+    | some l, some u, some pop => (d, showPop (Opy.Gen.hyperClip.runAll l u pop)) | _, _, _ => (d, "bad-op")
   -- the expressions translated from the current source, evaluated in Float
   | ["fx", which, name, envs, xs] =>
     let e? : Option FExpr := match which with
